@@ -1006,6 +1006,13 @@ package rewriter
 //@   -- D24: f in `func(x T) R { return x.m(x) }` depends on the literal's own parameter: `x.m` outside the literal does not even compile
 //@   ensures[closed-callee] ok ==> !CalleeMentionsParam(lit)
 //@   ensures[same-type] ok ==> TypesIdentical(typeOfExpr(lit), typeOfExpr(as(as(lit.Body.List[0], ReturnStmt).Results[0], CallExpr).Fun))
+//@   -- D38: the optimiser reloads the rewritten files with errors suppressed (go:generate mode leaves the package's hand-written
+//@   -- files behind): two unresolved types are both the invalid type, which is identical to itself
+//@   ensures[resolved-types] ok ==> TypeResolved(typeOfExpr(lit)) && TypeResolved(typeOfExpr(as(as(lit.Body.List[0], ReturnStmt).Results[0], CallExpr).Fun))
+
+//@ func resolved(ty) (ok)
+//@   trusted      -- go/types: the printed type does not mention the invalid type (types.TypeString, strings.Contains: external); decides the abstract TypeResolved
+//@   ensures ok == TypeResolved(ty)
 
 //@ extern (*types.object).Type(f) (t)
 //@   ensures t == funcType(f)
